@@ -715,7 +715,24 @@ fn report(ctx: &mut Ctx, ver: &str, diffs: Vec<Diff>, what: &str, replay: &serde
 }
 
 /// `tx_bytes`: a complete transaction; `era`: how to decode it (None = MultiEraTx::decode)
+/// every transaction is mapped as it is and, where the layout has a phase-2 validity flag, once more with
+/// the flag set to false (a transaction as it is recorded in a block after a script failure): the mapped
+/// hash / inputs / outputs / fee / validity are those of the body in both cases
 fn check_tx(ctx: &mut Ctx, m: &Mappers, tx_bytes: &[u8], era: Option<Era>, origin: &str, generated: bool) -> bool {
+    let r = check_tx_inner(ctx, m, tx_bytes, era, origin, generated);
+    if let Ok(it) = cbor::parse(tx_bytes) {
+        if it.is_array() && it.children.len() == 4 && it.children[2].major == 7 && tx_bytes[it.children[2].start] == 0xf5 {
+            let mut t = tx_bytes.to_vec();
+            t[it.children[2].start] = 0xf4;
+            if check_tx_inner(ctx, m, &t, era, &format!("{origin} [valid=false]"), generated) {
+                ctx.count("tx_checked_with_validity_flag_false");
+            }
+        }
+    }
+    r
+}
+
+fn check_tx_inner(ctx: &mut Ctx, m: &Mappers, tx_bytes: &[u8], era: Option<Era>, origin: &str, generated: bool) -> bool {
     let replay = json!({"kind": "tx", "tx": hexs(tx_bytes), "era": era.map(|e| format!("{e:?}")), "origin": origin});
     // own reading
     let Ok(it) = cbor::parse(tx_bytes) else {
